@@ -113,6 +113,15 @@ def gen_cases(rng, n):
                 main = "( %s ) %s ( %s )" % (v0, KW[opx], to_text(q2, S))
                 named = []
                 cdecl = []
+                if rng.random() < 0.4:
+                    # ... and the name is assigned a second time (the second definition uses the first): the signal stays an input
+                    q3 = g2.formula(rng.choice([0, 1]))
+                    if v0 not in vars_of(q3) and not (kind == "past" and _c03.past_over_future(bi("and", bi("and", q1, q3), q2))):
+                        op3 = rng.choice(["and", "or"])
+                        phi = bi(opx, bi(op3, q1, q3), q2)
+                        phi_m = strip_spelling(phi)
+                        vs = sorted(set(vars_of(phi)))
+                        subs = subs + ["%s = ( %s ) %s ( %s )" % (v0, v0, KW[op3], to_text(q3, S))]
         style = rng.choice(["add_sub_spec", "one_text"])
         declare_names = rng.random() < 0.5
         o1 = dt_obj(phi_m, S, vs, consts=cdecl)
